@@ -51,14 +51,15 @@ class Prop(BaseProp):
     HEADLINE = ["cmake_runs", "argv_records_checked", "trees_compared", "failure_cases", "template_checks"]
 
     def n_cases(self, tier):
-        return 108 if tier == "quick" else 1800
+        return 132 if tier == "quick" else 1980
 
     def setup_worker(self):
         runner.cminx()
 
     def run_case(self, idx, rng):
         res = CaseResult()
-        kind = ["file", "flat", "nested", "missing", "syntax", "lexer", "nested", "template", "nested-broken"][idx % 9]
+        KINDS = ["file", "flat", "nested", "missing", "syntax", "lexer", "nested", "template", "nested-broken", "exe-missing", "exe-killed"]
+        kind = KINDS[idx % 11]
         res.see("input_kinds", kind)
         with runner.sandbox() as sb:
             home = os.path.join(sb, "home")
@@ -68,7 +69,7 @@ class Prop(BaseProp):
             shim = os.path.join(sb, "bin", "cminx")
             os.makedirs(os.path.dirname(shim))
             with open(shim, "w") as f:
-                entry = "main.py" if idx // 9 % 2 else "console"
+                entry = "main.py" if idx // 11 % 2 else "console"
                 res.see("executable_entry_points", entry)
                 f.write(SHIM.format(log=log, src=src, py=PY, entry=ENTRY[entry].format(src=src)))
             os.chmod(shim, 0o755)
@@ -88,12 +89,12 @@ class Prop(BaseProp):
                     f.write("#!/bin/sh\necho other cminx\n")
                 os.chmod(other, 0o755)
                 prefix_line = f'set(CMAKE_PREFIX_PATH {q(os.path.join(sb, "venv_prefix"))})\nset(CMAKE_PROGRAM_PATH {q(os.path.dirname(other))})\n' \
-                    if idx // 9 % 2 else ""
+                    if idx // 11 % 2 else ""
                 res.see("template_with_other_cminx_on_prefix_path", bool(prefix_line))
                 drv = os.path.join(sb, "t.cmake")
                 # the package may be loaded in another scope than the one cminx_gen_rst is called from (find_package inside a
                 # function or a sub-directory): the call must find the executable there too
-                scoped = idx // 18 % 2 == 1
+                scoped = idx // 22 % 2 == 1
                 res.see("template_loaded_in_inner_scope", scoped)
                 one = os.path.join(sb, "one.cmake")
                 with open(one, "w") as f:
@@ -106,7 +107,7 @@ class Prop(BaseProp):
                 p = subprocess.run(["cmake", "-P", drv], capture_output=True, env=env, cwd=sb, timeout=120)
                 res.count("template_checks")
                 res.count("cmake_runs")
-                res.sig = sig_hash(["template", idx // 9 % 2, scoped])
+                res.sig = sig_hash(["template", idx // 11 % 2, scoped])
                 res.nontrivial = True
                 got = open(os.path.join(sb, "exe.txt")).read() if os.path.exists(os.path.join(sb, "exe.txt")) else None
                 if p.returncode != 0 or got is None or os.path.realpath(got) != os.path.realpath(shim):
@@ -123,7 +124,10 @@ class Prop(BaseProp):
                 tree.files["k_broken_first.cmake"] = "function(never_closed\n"
                 tree.dirs.add("zzz_last")
                 tree.files["zzz_last/fine.cmake"] = cmake_text("zzz_last/fine.cmake")
-            inp_dir = os.path.join(sb, "w", "proj")
+            # (the directory the input lives in may carry characters that are special in glob patterns: a path is a path)
+            wname = rng.choice(["w", "w", "w", "w[x86_64]", "w*s", "w?q", "w{a,b}"])
+            res.see("input_parent_directory_names", wname)
+            inp_dir = os.path.join(sb, wname, "proj")
             tree.write(inp_dir)
             if kind in ("file", "syntax", "lexer"):
                 target = os.path.join(inp_dir, "top_input.cmake")
@@ -135,7 +139,7 @@ class Prop(BaseProp):
                 with open(target, "w") as f:
                     f.write(body)
             elif kind == "missing":
-                target = os.path.join(sb, "w", "does-not-exist")
+                target = os.path.join(sb, wname, "does-not-exist")
             else:
                 target = inp_dir
             # extra argument lists
@@ -144,7 +148,7 @@ class Prop(BaseProp):
             pool = [[], ["-p", "Pfx"], ["-e", "e*.cmake"], ["-s", scfg], ["-p", "My Prefix"], ["-e", "a*", "-e", "b.cmake"],
                     ["-p", "P", "-s", scfg, "-e", "top.cmake"], ["-p", "x(y)"], ["-p", "$dollar"], ["-e", "*.md", "-p", "a b c"],
                     ["-e", "sub/"], ["-e", "a*/", "-p", "x/"], ["-p", "back\\slash"], ["-e", "e*/", "-e", "zz/"], ["-p", "trailing "]]
-            extra = pool[(idx // 9 + rng.randrange(3)) % len(pool)]
+            extra = pool[(idx // 11 + rng.randrange(3)) % len(pool)]
             run_cwd = os.path.join(sb, "started_here")       # cmake (and the direct command line) run from here,
             os.makedirs(run_cwd)                              # the driver script lives one level up
             out1 = os.path.join(sb, "out_cmake")
@@ -158,7 +162,7 @@ class Prop(BaseProp):
                 out1_arg, out2_arg = out1, out2
             if kind in ("flat", "nested", "file") and rng.random() < 0.3:
                 # the input is reached through a symbolic link with another name
-                link = os.path.join(sb, "w", "linked_input" + (".cmake" if kind == "file" else ""))
+                link = os.path.join(sb, wname, "linked_input" + (".cmake" if kind == "file" else ""))
                 os.symlink(target, link)
                 target = link
                 res.count("symlinked_inputs")
@@ -181,8 +185,22 @@ class Prop(BaseProp):
                 f'cminx_gen_rst({q(target)} {q(out1 if not rel_out else "rel_out_cmake")} {" ".join(q(e) for e in extra0)})\n'
             if same_args:
                 first_call += f'file(WRITE {q(scfg)} {q(cfg_second)})\n'
+            exe = shim
+            if kind == "exe-missing":
+                # the executable cannot be started at all (stale path, launcher whose interpreter is gone)
+                exe = rng.choice([os.path.join(sb, "bin", "no-such-cminx"), os.path.join(sb, "bin", "cminx_bad_interpreter")])
+                if exe.endswith("bad_interpreter"):
+                    with open(exe, "w") as f:
+                        f.write("#!/no/such/interpreter\n")
+                    os.chmod(exe, 0o755)
+            elif kind == "exe-killed":
+                # CMinx does not end with an exit status: it is terminated by a signal
+                exe = os.path.join(sb, "bin", "cminx_killed")
+                with open(exe, "w") as f:
+                    f.write("#!/bin/sh\nkill -%s $$\nsleep 5\n" % rng.choice(["9", "15", "11"]))
+                os.chmod(exe, 0o755)
             with open(drv, "w") as f:
-                f.write(f'set(CMINX_EXECUTABLE {q(shim)})\ninclude({q(os.path.join(repo_root(), "cmake", "cminx.cmake"))})\n'
+                f.write(f'set(CMINX_EXECUTABLE {q(exe)})\ninclude({q(os.path.join(repo_root(), "cmake", "cminx.cmake"))})\n'
                         + first_call +
                         f'cminx_gen_rst({q(target)} {q(out1 if not rel_out else "rel_out_cmake")} {" ".join(q(e) for e in extra)})\n'
                         f'file(WRITE {q(marker)} "continued")\n')
@@ -200,6 +218,14 @@ class Prop(BaseProp):
             res.count("cmake_runs")
             wit = {"kind": kind, "extra": extra, "driver": open(drv).read(), "cmake_rc": p.returncode,
                    "cmake_stderr": p.stderr.decode("utf-8", "replace")[-600:]}
+            if kind in ("exe-missing", "exe-killed"):
+                res.count("failure_cases")
+                res.nontrivial = True
+                if p.returncode == 0:
+                    res.violate(f"cmake-continues-although-cminx-did-not-run-to-an-exit-status:{kind}", "cmake exited 0", wit)
+                if os.path.exists(marker):
+                    res.violate(f"script-continued-after-failure:{kind}", "the line after cminx_gen_rst() was executed", wit)
+                return res
             # (1) argv as received by the executable
             recs = []
             if os.path.exists(log):
@@ -251,7 +277,7 @@ class Prop(BaseProp):
                     res.violate("output-tree-differs-from-cli", f"{diff[:5]}", wit)
             if kind in ("missing", "syntax", "lexer", "nested-broken") and rc == 0:
                 res.violate(f"cli-accepts-faulty-input:{kind}", "direct run exits 0", wit)
-            if idx % 9 in (1, 2):
+            if idx % 11 in (1, 2):
                 res.sample = {"kind": kind, "extra": extra, "argv_seen": recs, "cmake_rc": p.returncode}
         return res
 
